@@ -25,6 +25,9 @@ from vf.core import Check, require
 
 PROPERTY_ID = 'C15'
 NEEDS_TF = False
+FUZZ_CHECKS = ['padded_client_datasets', 'mismatch_rejected', 'repeatable_iterator']
+FUZZ_INSTRUMENT = ['fedjax.core.client_datasets', 'fedjax.core.federated_data']
+FUZZ_RUNS = {'quick': 3000, 'thorough': 300000}
 LEVEL = 'exploration'
 RULE = (
     'Hypothesis draws a batch size B in 1..9 (thorough 1..16), 0-8 clients whose '
